@@ -42,10 +42,14 @@ def generate(n, length, seed, wd, tag):
 def validate(events, wd, tag, jobs):
     """-> list of (program id, step index | limit, code | event name, components)"""
     progs = []
+    small = lambda v: v if v < (1 << 30) else -1          # X86!ToInt: addresses beyond the guest layout are "certainly unmapped" (-1)
     for e in events:
         if e["ev"] == "reset":
             progs.append([])
-        progs[-1].append({k: v for k, v in e.items() if k not in ("opv0", "sub")})
+        e2 = {k: v for k, v in e.items() if k not in ("opv0", "sub")}
+        if "trace" in e2:
+            e2["trace"] = [dict(t, ip=small(t["ip"]), target=small(t["target"])) for t in e2["trace"]]
+        progs[-1].append(e2)
     groups = vlib.chunks(progs, jobs)
     chunks = [[e for p in g for e in p] for g in groups if g]
     verdicts = vlib.tlc_trace_parallel("Trace_Prog", "Trace_Prog.cfg", chunks, wd, tag, jobs, timeout=3000)
